@@ -39,10 +39,14 @@ def spec_st(draw, max_n=7, min_workers=1):
         names = ["engine", "engb", "engc"][: draw(st.integers(2, 3))]
         ens_engs = [[draw(st.sampled_from(names))] for _ in range(n)]
         extra = sorted({e[0] for e in ens_engs} - {"engine"})
+    # lambda_-1 variant of [0-] and translated copies of the whole system (cap / lambda_0 / lambda_-1 on 0.0); exact: halves
+    lm1 = draw(st.sampled_from([None, None, None, -1.5, -2.5]))
+    origin = draw(st.sampled_from([0.0, 0.0, 0.5, cap if cap is not None else 1.5, lm1 if lm1 is not None else -1.0]))
     return simdrv.lattice_spec(
+        lm1=lm1, origin=origin,
         ensemble_engines=ens_engs, extra_engines=extra,
         n=n, moves=moves, workers=workers, steps=0, seed=draw(st.sampled_from([0, 1, 7, 2**31 + 5]) | st.integers(0, 2**32 - 1)),
-        cap=cap, wall=draw(st.sampled_from([-1, -2, -4])), n_jumps=draw(st.sampled_from([1, 2, 3, 6])),
+        cap=cap, wall=draw(st.sampled_from([-1, -2, -4])) if lm1 is None else -4, n_jumps=draw(st.sampled_from([1, 2, 3, 6])),
         maxlength=draw(st.sampled_from([12, 40, 400])), allowmaxlength=draw(st.booleans()),
         delete_old=(dl := draw(st.sampled_from(["off", "on", "all"]))) != "off", delete_old_all=dl == "all",
         subcycles=subcycles, zeroswap=draw(st.sampled_from([None, None, 1.0, 0.0])),
